@@ -135,10 +135,11 @@ def _registration(chk, ex, b, F_reg):
         cases.append(('/a', [('Query', 'q', sh)]))
         cases.append(('/a/{r:.*}', [('Path', 'r', sh)]))
     for path, params in cases:
+        vis_p = z3.Bool('endpoint_published')          # parameter rules hold for published and unpublished endpoints alike
         def h(ex):
             a = Cell(api(ex, 'Any', True, []))
             ps = [mk_param(ex, kind, n, sh[1], sh[2]) for kind, n, sh in params]
-            return ex.call_fn(F_reg, [Ref(a), endpoint(ex, path, ps, [], True)])
+            return ex.call_fn(F_reg, [Ref(a), endpoint(ex, path, ps, [], vis_p)])
         outs = ex.explore(h, [])
         chk.paths += len(outs)
         from props.routerlib import parse_template
@@ -161,7 +162,7 @@ def _registration(chk, ex, b, F_reg):
             m = chk.prove(f'{tag}/rejected-iff-parameters-ill-formed', pc, z3.BoolVal(rejected != want_rej))
             if m is not None:
                 shape_names = [sh[0] for _, _, sh in params]
-                case = {'op': 'register_params', 'path': path, 'params': [[kind, n, sh[0]] for kind, n, sh in params]}
+                case = {'op': 'register_params', 'path': path, 'params': [[kind, n, sh[0]] for kind, n, sh in params], 'visible': bool(m.eval(vis_p, model_completion=True))}
                 nat = replay([case])[0]
                 if 'unsupported' in nat:
                     chk.mismatches.append(f'registration of {tag}: {"rejected" if rejected else "accepted"}, statement says {"reject" if want_rej else "accept"} '
